@@ -50,7 +50,7 @@ class Report:
     def add_violation(self, sig, what, detail=None, case=None, profile=None):
         self.violations.append({"sig": sig, "what": what, "detail": detail or {}, "case": case, "profile": profile})
 
-    def add_cases(self, cases, crash_is_violation=True, crash_sig=None):
+    def add_cases(self, cases, crash_is_violation=True, crash_sig=None, on_crash=None, hang_confirm=None):
         """Fold worker case records. A worker death inside a case is a violation of kind crash
         (abort / signal) for properties whose statement forbids it, a timeout is inconclusive
         unless the property's own hang procedure decides otherwise."""
@@ -58,6 +58,22 @@ class Report:
             merge_tally(self.tally, c.obs)
             if c.fate is not None:
                 kind = c.fate["kind"]
+                if on_crash == "held":
+                    # the worker died: for this property that is "no success", the crash itself is another property's subject
+                    self.evaluations += 1
+                    self.obs_inc("cases_where_the_worker_crashed_or_hung")
+                    if c.fp:
+                        self.fps.add(c.fp or f"crash-{c.k}")
+                    continue
+                if hang_confirm is not None and (kind == "timeout" or (kind == "exit" and c.fate.get("code") == 3)):
+                    verdict = hang_confirm(c)
+                    if verdict is None:
+                        self.inconclusive += 1
+                        self.inconclusive_notes.append(f"case {c.k}: watchdog fired, hang not confirmed")
+                    else:
+                        self.evaluations += 1
+                        self.add_violation(verdict["sig"], verdict["what"], verdict.get("detail"), c.desc, c.profile)
+                    continue
                 if kind == "timeout":
                     self.inconclusive += 1
                     self.inconclusive_notes.append(f"case {c.k}: watchdog expired after {c.fate['after_s']}s")
@@ -127,6 +143,18 @@ class Report:
             log(f"  signature: {key[:600]}")
             log(f"VIOLATION property={self.prop} replay={path}")
             printed += 1
+        try:
+            from .common import WORK
+            os.makedirs(WORK, exist_ok=True)
+            agg = {}
+            for v in new:
+                key = json.dumps(v["sig"], sort_keys=True)
+                a = agg.setdefault(key, {"sig": v["sig"], "count": 0, "what": v["what"][:300]})
+                a["count"] += 1
+            with open(os.path.join(WORK, f"last_violations_{self.prop}.json"), "w") as f:
+                json.dump(sorted(agg.values(), key=lambda a: -a["count"]), f, indent=1)
+        except Exception:
+            pass
         distinct = len(self.fps)
         n = {k: v for k, v in sorted(self.tally["n"].items())}
         sets = {k: {"count": len(s), "first": sorted(s)[:12]} for k, s in sorted(self.tally["sets"].items())}
